@@ -3,11 +3,17 @@ package util
 // Bounded stand-in for the history-independence half of C02 (the contracts prove the canonical
 // shape of every node handed to the store, not the equality of roots across histories): every
 // history of up to 4 inserts / deletes over prefix-related paths is run, and its root is compared
-// with the root of a trie built directly (sorted inserts) from the same final content.
+// with the root of a trie built directly (sorted inserts) from the same final content, and with an
+// independent re-computation of the root from the sorted content following the published node-hash
+// format (sha3-256 over the little-endian origin and the ':'-separated field encoding; written by a
+// sub-agent that saw only the property text).
 // property: C02
-// scope: paths {3456, 3457, 9, a34567, a34568, a9, b0, 12, 1234, 1256}; all histories of <= 4 insert/delete operations (deletes of live keys only); memory store, one version
+// scope: paths {3456, 3457, 9, a34567, a34568, a9, b0, 12, 1234, 1256, 1, 1abc, 2def} (odd and even lengths, keys that end exactly at a branch slot); all histories of <= 4 insert/delete operations (deletes of live keys only); memory store, one version
 
 import (
+	"bytes"
+	"encoding/binary"
+	"encoding/hex"
 	"fmt"
 	"sort"
 	"testing"
@@ -15,6 +21,7 @@ import (
 	"github.com/0chain/common/core/logging"
 	"github.com/0chain/common/core/statecache"
 	"go.uber.org/zap"
+	"golang.org/x/crypto/sha3"
 )
 
 func init() {
@@ -28,9 +35,87 @@ func c02btrie() *MerklePatriciaTrie {
 	return NewMerklePatriciaTrie(NewMemoryNodeDB(), 1, nil, tc)
 }
 
+// independent re-computation of the root of the canonical trie for a content, following the
+// published node-hash format: sha3-256(origin little-endian int64 || field encoding)
+type c02refKV struct {
+	path  string // remaining path below the current position
+	value []byte
+}
+
+func c02refHash(origin int64, enc []byte) []byte {
+	buf := bytes.NewBuffer(nil)
+	_ = binary.Write(buf, binary.LittleEndian, origin)
+	buf.Write(enc)
+	h := sha3.Sum256(buf.Bytes())
+	return h[:]
+}
+
+func c02refRefRoot(origin int64, prefix string, kvs []c02refKV) []byte {
+	if len(kvs) == 0 {
+		return nil
+	}
+	if len(kvs) == 1 {
+		// leaf: prefix ':' path ':' value
+		enc := []byte(prefix + ":" + kvs[0].path + ":")
+		enc = append(enc, kvs[0].value...)
+		return c02refHash(origin, enc)
+	}
+	// longest common prefix of all the remaining paths
+	cp := kvs[0].path
+	for _, kv := range kvs[1:] {
+		i := 0
+		for i < len(cp) && i < len(kv.path) && cp[i] == kv.path[i] {
+			i++
+		}
+		cp = cp[:i]
+	}
+	if len(cp) > 0 {
+		// extension: path ':' raw child key
+		sub := make([]c02refKV, 0, len(kvs))
+		for _, kv := range kvs {
+			sub = append(sub, c02refKV{kv.path[len(cp):], kv.value})
+		}
+		enc := []byte(cp + ":")
+		enc = append(enc, c02refRefRoot(origin, prefix+cp, sub)...)
+		return c02refHash(origin, enc)
+	}
+	// branch: 16 x (hex child key ':') then the value stored at the branch itself
+	var own []byte
+	groups := map[byte][]c02refKV{}
+	for _, kv := range kvs {
+		if kv.path == "" {
+			own = kv.value
+			continue
+		}
+		groups[kv.path[0]] = append(groups[kv.path[0]], c02refKV{kv.path[1:], kv.value})
+	}
+	enc := bytes.NewBuffer(nil)
+	for _, c := range []byte("0123456789abcdef") {
+		if g, ok := groups[c]; ok {
+			enc.WriteString(hex.EncodeToString(c02refRefRoot(origin, prefix+string(c), g)))
+		}
+		enc.WriteByte(':')
+	}
+	enc.Write(own)
+	return c02refHash(origin, enc.Bytes())
+}
+
+func c02refRefRootOf(origin int64, content map[string]string) []byte {
+	paths := make([]string, 0, len(content))
+	for p := range content {
+		paths = append(paths, p)
+	}
+	sort.Strings(paths)
+	kvs := make([]c02refKV, 0, len(paths))
+	for _, p := range paths {
+		kvs = append(kvs, c02refKV{p, []byte(content[p])})
+	}
+	return c02refRefRoot(origin, "", kvs)
+}
+
 func TestGocvBoundedC02(t *testing.T) {
 	cases := 0
-	paths := []string{"3456", "3457", "9", "a34567", "a34568", "a9", "b0", "12", "1234", "1256"}
+	paths := []string{"3456", "3457", "9", "a34567", "a34568", "a9", "b0", "12", "1234", "1256", "1", "1abc", "2def"}
 	type op struct {
 		del  bool
 		path string
@@ -70,6 +155,18 @@ func TestGocvBoundedC02(t *testing.T) {
 				for _, k := range keys {
 					_, _ = direct.Insert(Path(k), &SecureSerializableValue{Buffer: []byte("v")})
 				}
+				if len(keys) > 0 {
+					content := map[string]string{}
+					for _, k := range keys {
+						content[k] = "v"
+					}
+					if want := c02refRefRootOf(1, content); !bytes.Equal(tr.GetRoot(), want) {
+						if fails < 3 {
+							fmt.Printf("GOCV-FAIL root differs from the independent computation of the published node-hash format: %v gives root %x, independent computation for %v gives %x\n", seq, tr.GetRoot(), keys, want)
+						}
+						fails++
+					}
+				}
 				if string(tr.GetRoot()) != string(direct.GetRoot()) {
 					if fails < 3 {
 						fmt.Printf("GOCV-FAIL root depends on history: %v gives root %x, direct construction of %v gives %x\n", seq, tr.GetRoot(), keys, direct.GetRoot())
@@ -104,5 +201,5 @@ func TestGocvBoundedC02(t *testing.T) {
 	if fails > 0 {
 		t.Fail()
 	}
-	fmt.Printf("GOCV-BOUNDED cases=%d failures=%d scope=\"all histories of <= 4 inserts/deletes over %v: root equals the root of the trie built directly from the final content\"\n", cases, fails, paths)
+	fmt.Printf("GOCV-BOUNDED cases=%d failures=%d scope=\"all histories of <= 4 inserts/deletes over %v: root equals the root of the trie built directly from the final content and the independent re-computation of the published node-hash format\"\n", cases, fails, paths)
 }
